@@ -78,4 +78,126 @@ theorem rleEncWrap_zero_run (n : Nat) : ∀ c rest,
     · rw [h]; congr 1; omega
     · subst h0; rw [h]
 
+/-! ### Whole file ids: `decodeRaw (encodeRaw f) = .ok f` for canonical `f` -/
+
+theorem rd32 (v : Nat) (rest : Bytes) (h : v < 2 ^ 32) : rdU32 (putU32 v ++ rest) = .ok (v, rest) := by
+  simp only [rdU32, getU32_putU32 v rest h, liftE]
+theorem rd64 (v : Nat) (rest : Bytes) (h : v < 2 ^ 64) : rdU64 (putU64 v ++ rest) = .ok (v, rest) := by
+  simp only [rdU64, getU64_putU64 v rest h, liftE]
+theorem rdB (v rest : Bytes) (h : v.length < 2 ^ 24) : rdBytes (putBytes v ++ rest) = .ok (v, rest) := by
+  simp only [rdBytes, getBytes_putBytes v rest h, liftE]
+theorem pss_roundtrip (p : PSS) (hc : p.canon) (rest : Bytes) :
+    PSS.decode {} (p.encode ++ rest) 34 = .ok (p, rest) := by
+  obtain ⟨ht, h1, h2, h3, h4, h5, h6, h7, h8, h9, h10, hs⟩ := hc
+  obtain ⟨type, volumeID, localID, secret, fileType, thumbType, dialogID, dialogAH, setID, setAH, stickerVersion⟩ := p
+  simp only [lastPSSType, Facts.C38.lastPSSType] at ht
+  simp only at h1 h2 h3 h4 h5 h6 h7 h8 h9 h10 ht
+  have hcases : type = 0 ∨ type = 1 ∨ type = 2 ∨ type = 3 ∨ type = 4 ∨ type = 5 ∨ type = 6 ∨ type = 7 ∨ type = 8 ∨ type = 9 := by omega
+  rcases hcases with rfl | rfl | rfl | rfl | rfl | rfl | rfl | rfl | rfl | rfl <;>
+  · simp only [PSS.shape, PSS.mk.injEq, true_and] at hs
+    simp only [PSS.encode, PSS.decode, PSS.decodeTyped, PSS.decodeBody, readDialog, readStickerSet, readLocalVolume,
+      List.append_assoc, lastPSSType, Facts.C38.lastPSSType]
+    simp [rd32, rd64, h1, h2, h3, h4, h5, h6, h7, h8, h9, h10, bind, Except.bind, pure, Except.pure, hs]
+
+theorem typeID_flags : ∀ t, t < 18 → ∀ w r : Bool,
+    let x := t ||| (if w then 16777216 else 0) ||| (if r then 33554432 else 0)
+    x < 2 ^ 32 ∧ (decide (x / 16777216 % 2 = 1) = w) ∧ (decide (x / 33554432 % 2 = 1) = r) ∧
+      x - (if w then 16777216 else 0) - (if r then 33554432 else 0) = t := by
+  decide
+
+theorem rdB' (v : Bytes) (h : v.length < 2 ^ 24) : rdBytes (putBytes v) = .ok (v, []) := by
+  have := rdB v [] h
+  rwa [List.append_nil] at this
+
+theorem body_roundtrip (f : FileID) (hc : f.canon) (sv : Nat) (hsv : f.url = [] → sv = 34) :
+    decodeLatestBody sv f.encodeLatest = .ok f := by
+  obtain ⟨ht, hdc, hid, hah, href, hurl, hrest⟩ := hc
+  obtain ⟨type, dc, id, accessHash, fileRef, url, pss⟩ := f
+  simp only [lastType, Facts.C38.lastType] at ht
+  simp only at ht hdc hid hah href hurl hrest hsv
+  have hnt : ¬ 18 ≤ type := by omega
+  by_cases hu : url = [] <;> by_cases hr : fileRef = []
+  · subst hu; subst hr
+    have hfl := typeID_flags type ht false false
+    simp only [Bool.false_eq_true, if_false, Nat.or_zero, Nat.sub_zero, decide_eq_false_iff_not] at hfl
+    obtain ⟨h32, hw, hrf, _⟩ := hfl
+    have hsv' := hsv rfl
+    subst hsv'
+    simp only [ne_eq, not_true_eq_false, if_false] at hrest
+    simp only [FileID.encodeLatest, decodeLatestBody, webLocationFlag, fileReferenceFlag, Facts.C38.webLocationFlag,
+      Facts.C38.fileReferenceFlag, ne_eq, not_true_eq_false, if_false, Nat.or_zero, List.append_nil,
+      List.append_assoc, lastType, Facts.C38.lastType]
+    by_cases hp : isPhotoType type = true
+    · simp only [hp, if_true] at hrest ⊢
+      simp [rd32, rd64, h32, hdc, hid, hah, hw, hrf, hnt, bind, Except.bind, decodeTail, hp, pss_roundtrip pss hrest, pure, Except.pure]
+    · simp only [hp] at hrest ⊢
+      subst hrest
+      simp [rd32, rd64, h32, hdc, hid, hah, hw, hrf, hnt, bind, Except.bind, decodeTail, hp, pure, Except.pure]
+  · subst hu
+    have hfl := typeID_flags type ht false true
+    simp only [Bool.false_eq_true, if_false, if_true, Nat.or_zero, Nat.sub_zero, decide_eq_false_iff_not, decide_eq_true_eq] at hfl
+    obtain ⟨h32, hw, hrf, hsub⟩ := hfl
+    have hsv' := hsv rfl
+    subst hsv'
+    simp only [ne_eq, not_true_eq_false, if_false] at hrest
+    simp only [FileID.encodeLatest, decodeLatestBody, webLocationFlag, fileReferenceFlag, Facts.C38.webLocationFlag,
+      Facts.C38.fileReferenceFlag, ne_eq, not_true_eq_false, if_false, hr, not_false_eq_true, if_true, Nat.or_zero, List.append_nil,
+      List.append_assoc, lastType, Facts.C38.lastType]
+    by_cases hp : isPhotoType type = true
+    · simp only [hp, if_true] at hrest ⊢
+      simp [rd32, rd64, rdB, h32, hdc, hid, hah, href, hw, hrf, hsub, hnt, bind, Except.bind, decodeTail, hp, pss_roundtrip pss hrest, pure, Except.pure]
+    · simp only [hp] at hrest ⊢
+      subst hrest
+      simp [rd32, rd64, rdB, h32, hdc, hid, hah, href, hw, hrf, hsub, hnt, bind, Except.bind, decodeTail, hp, pure, Except.pure]
+  · subst hr
+    have hfl := typeID_flags type ht true false
+    simp only [Bool.false_eq_true, if_false, if_true, Nat.or_zero, Nat.sub_zero, decide_eq_false_iff_not, decide_eq_true_eq] at hfl
+    obtain ⟨h32, hw, hrf, hsub⟩ := hfl
+    simp only [ne_eq, hu, not_false_eq_true, if_true] at hrest
+    obtain ⟨rfl, rfl, rfl⟩ := hrest
+    simp only [FileID.encodeLatest, decodeLatestBody, webLocationFlag, fileReferenceFlag, Facts.C38.webLocationFlag,
+      Facts.C38.fileReferenceFlag, ne_eq, not_true_eq_false, if_false, hu, not_false_eq_true, if_true, Nat.or_zero, List.append_nil,
+      List.append_assoc, lastType, Facts.C38.lastType]
+    simp [rd32, rdB', h32, hdc, hurl, hw, hrf, hsub, hnt, bind, Except.bind, decodeTail, pure, Except.pure]
+  · have hfl := typeID_flags type ht true true
+    simp only [Bool.false_eq_true, if_false, if_true, Nat.or_zero, Nat.sub_zero, decide_eq_false_iff_not, decide_eq_true_eq] at hfl
+    obtain ⟨h32, hw, hrf, hsub⟩ := hfl
+    simp only [ne_eq, hu, not_false_eq_true, if_true] at hrest
+    obtain ⟨rfl, rfl, rfl⟩ := hrest
+    simp only [FileID.encodeLatest, decodeLatestBody, webLocationFlag, fileReferenceFlag, Facts.C38.webLocationFlag,
+      Facts.C38.fileReferenceFlag, ne_eq, hu, hr, not_false_eq_true, if_true, List.append_nil,
+      List.append_assoc, lastType, Facts.C38.lastType]
+    simp [rd32, rdB, rdB', h32, hdc, hurl, href, hw, hrf, hsub, hnt, bind, Except.bind, decodeTail, pure, Except.pure]
+
+theorem rleDecode_rleEncode (s : Bytes) : rleDecode (rleEncode s) = s := by
+  unfold rleDecode rleEncode
+  rw [rleDec_rleEnc s 0 (by omega)]
+  simp
+
+theorem encodeLatest_length (f : FileID) : 4 ≤ f.encodeLatest.length := by
+  simp only [FileID.encodeLatest, List.length_append, putU32_length]
+  omega
+
+theorem encodeLatest_last (f : FileID) (hu : f.url = []) :
+    f.encodeLatest.getLast? = some (UInt8.ofNat latestSubVersion) := by
+  simp [FileID.encodeLatest, hu]
+
+theorem decodeLatest_roundtrip (f : FileID) (hc : f.canon) : decodeLatest f.encodeLatest = .ok f := by
+  unfold decodeLatest
+  cases h : f.encodeLatest.getLast? with
+  | none =>
+    have := encodeLatest_length f
+    rw [List.getLast?_eq_none_iff] at h
+    rw [h] at this
+    simp at this
+  | some sv =>
+    simp only
+    apply body_roundtrip f hc
+    intro hu
+    have := encodeLatest_last f hu
+    rw [h] at this
+    have hsv : sv = UInt8.ofNat latestSubVersion := Option.some.inj this
+    rw [hsv]
+    decide
+
 end TdModel.C38
